@@ -19,7 +19,7 @@ typedef struct adv_out {
 	int kind;                     /* 0 = datagram from v4 sock, 1 = from v6 sock, 2 = from bind sock, 3 = tun write, 4 = system() */
 	struct sockaddr_storage dst;
 	int len;
-	unsigned char data[4200];
+	unsigned char data[16400];           /* a 4094-byte fragment in Base32 TXT form is about 6.7 KB */
 	int full_len;
 } adv_out;
 
